@@ -41,3 +41,15 @@ package ast
 
 // every listed property name of an object literal has an initialiser
 //@ typeinv ast.ObjectLiteral o: forall(k, 0, len(o.Keys), has(o.Properties, o.Keys[k].Lexeme))
+
+// C01: the shape every tree has -- a binary node's left child sits at least on the operator's ladder level, its right child
+// strictly above it (left association); prefix operators take an operand of level unary or above (they bind tighter than
+// '**'); suffixes apply to level call or above.
+//@ typeinv ast.Binary b: nodeOK(b.Left) && nodeOK(b.Right) && binLevel(b.Operator.Type) >= 3 && lvl(b.Left) >= binLevel(b.Operator.Type) && lvl(b.Right) > binLevel(b.Operator.Type)
+//@ typeinv ast.Logical l: nodeOK(l.Left) && nodeOK(l.Right) && logLevel(l.Operator.Type) >= 1 && lvl(l.Left) >= logLevel(l.Operator.Type) && lvl(l.Right) > logLevel(l.Operator.Type)
+//@ typeinv ast.Unary u: isPrefixOp(u.Operator.Type) && nodeOK(u.Right) && lvl(u.Right) >= 12
+//@ typeinv ast.Call c: nodeOK(c.Callee) && lvl(c.Callee) >= 13
+//@ typeinv ast.ArrayAccess a: nodeOK(a.Array) && lvl(a.Array) >= 13 && nodeOK(a.Index)
+//@ typeinv ast.PropertyAccess a: nodeOK(a.Object) && lvl(a.Object) >= 13
+//@ typeinv ast.ArrayAssignment a: nodeOK(a.Array) && lvl(a.Array) >= 13 && nodeOK(a.Index) && nodeOK(a.Value)
+//@ typeinv ast.PropertyAssignment a: nodeOK(a.Object) && lvl(a.Object) >= 13 && nodeOK(a.Value)
